@@ -720,10 +720,7 @@ where
         *single_item = num_items == 1;
         if *has_attr {
             match num_items {
-                0 => {}
-                1 => {
-                    fmt.write_str(" ")?;
-                }
+                0 | 1 => {}
                 _ => {
                     strategy.attr_padding().fmt(fmt)?;
                     fmt.write_str("{")?;
@@ -761,6 +758,8 @@ where
             fmt.write_str("{")?;
             strategy.start_block(1).fmt(fmt)?;
             *brace_written = true;
+        } else if !*brace_written && *has_attr && *single_item {
+            fmt.write_str(" ")?;
         }
         if *first {
             *first = false;
@@ -782,9 +781,17 @@ where
             fmt,
             brace_written,
             first,
+            has_attr,
             strategy,
             ..
         } = &mut self;
+        if *has_attr && !*brace_written {
+            // A single slot after attributes needs braces, otherwise the attributes are read as part of the key.
+            strategy.attr_padding().fmt(fmt)?;
+            fmt.write_str("{")?;
+            strategy.start_block(1).fmt(fmt)?;
+            *brace_written = true;
+        }
         if *first {
             *first = false;
         } else {
